@@ -24,7 +24,9 @@ relative (next to a discontinuity).  General models do not use `pi` in expressio
 problem (rhs_matrix substitutes the intermediates and re-evaluates sin/cos/tan of a sum that now contains pi, dropping terms) is exercised by
 the dedicated PI_TRIG models; a mismatch of a model in which pi reaches a trigonometric argument (directly or through the intermediates
 mentioned there) is reported as C20:rhs-matrix-differs:trig-of-unevaluated-sum-with-pi.  One case = one (model, check, point).
-Models whose NumPy module cannot be generated are skipped.  Non-trivial: the model has >= 1 intermediate; distinct by sha1(text, check,
+rhs-matrix-raises / jacobian-raises:AttributeError get :boolean-used-arithmetically when the message names a sympy Boolean AND the text of
+the derivatives (with what they depend on) uses a relational / logical value as a number (modelgen.boolean_in_arithmetic: `Ge(0.4 + u, u)*u`);
+any other AttributeError keeps the bare signature.  Models whose NumPy module cannot be generated are skipped.  Non-trivial: the model has >= 1 intermediate; distinct by sha1(text, check,
 point)."""
 
 
